@@ -299,17 +299,12 @@ func runC14(cfg *vh.Config) error {
 	}
 
 	// ---- stream 1: bundles under K configurations (direct oracle: everything byte-identical)
-	rB := cfg.R.Fork("bundles")
-	nB := cfg.Scale(36, 300)
+	nB := cfg.Scale(28, 300)
 	K := 8
 	if cfg.Tier == "thorough" {
 		K = 64
 	}
-	bundles := make([]bundleT, nB)
-	for i := range bundles {
-		bundles[i] = genBundle(rB)
-	}
-	bundles[0] = collisionBundle()
+	bundles := c14Bundles(cfg)
 	type bres struct{ Runs []runObs }
 	all := parallel(nB, "bundle", caseNo,
 		func(i int) any { return map[string]any{"files": bundles[i].Content, "packages": bundles[i].Packages} },
@@ -320,6 +315,61 @@ func runC14(cfg *vh.Config) error {
 			}
 			return out
 		})
+	// peers: fresh processes compiling some bundles with reversed listings first (see c14peer.go)
+	groups := [][]int{{0}, {1}, {2}}
+	var rest []int
+	for i := 3; i < nB && i < cfg.Scale(10, 60); i++ {
+		rest = append(rest, i)
+	}
+	if len(rest) > 0 {
+		groups = append(groups, rest)
+	}
+	peers := parallel(len(groups), "peer", caseNo,
+		func(i int) any { return map[string]any{"peer process for bundles": groups[i]} },
+		func(i int) peerObs {
+			po, err := spawnPeer(cfg, groups[i])
+			if err != nil {
+				return peerObs{"error": {err.Error(): nil}}
+			}
+			return po
+		})
+	for gi, po := range peers {
+		if e, bad := po["error"]; bad {
+			for msg := range e {
+				res.Fail(vh.Failure{Case: caseNo, Stream: "peer", Sig: "C14 peer process failed (harness)", Clause: "harness expectation", Input: groups[gi], Got: msg})
+			}
+			continue
+		}
+		for _, bi := range groups[gi] {
+			b := bundles[bi]
+			in := map[string]any{"files": b.Content, "packages": b.Packages, "compared": "this process (sorted listings) vs a fresh process (reversed package and file listings, compiled first)"}
+			base := all[bi].Runs[0]
+			for _, pkg := range b.Packages {
+				bf, bok := base.Pkgs[pkg]
+				if !bok {
+					continue
+				}
+				res.Count("peer_pkg")
+				pf, pok := po[fmt.Sprint(bi)][pkg]
+				if !pok || len(pf) != len(bf) {
+					res.Fail(vh.Failure{Case: caseNo, Stream: "peer", Sig: "C14 compile outcome differs between processes with different listing orders", Clause: "independent of the run and of the listing order", Input: in, Got: fmt.Sprintf("package %s: %d files here, %d in the peer", pkg, len(bf), len(pf))})
+					continue
+				}
+				for i := range bf {
+					switch {
+					case bf[i].Path != pf[i].Path:
+						res.Fail(vh.Failure{Case: caseNo, Stream: "peer", Sig: "C14 order of output files differs between processes with different listing orders", Clause: "byte-identical descriptors", Input: in, Got: fmt.Sprintf("%s vs %s", bf[i].Path, pf[i].Path)})
+					case bf[i].Hash != pf[i].Hash:
+						_, d := firstDiffClass(bf[i].Text, pf[i].Text)
+						res.Fail(vh.Failure{Case: caseNo, Stream: "peer", Sig: "C14 descriptor bytes differ between processes with different listing orders", Clause: "byte-identical descriptors, independent of the run and of the listing order", Input: in, Got: fmt.Sprintf("%s: hash %s vs %s; printed text: %s", bf[i].Path, bf[i].Hash, pf[i].Hash, d)})
+					case bf[i].Text != pf[i].Text:
+						cls, d := firstDiffClass(bf[i].Text, pf[i].Text)
+						res.Fail(vh.Failure{Case: caseNo, Stream: "peer", Sig: "C14 printed text differs between processes with different listing orders: " + cls, Clause: "byte-identical printed .proto text", Input: in, Got: fmt.Sprintf("%s: %s", bf[i].Path, d)})
+					}
+				}
+			}
+		}
+	}
 	nOptCases, nMapCases := 0, 0
 	for bi, b := range bundles {
 		in := map[string]any{"files": b.Content, "packages": b.Packages}
@@ -429,7 +479,7 @@ func runC14(cfg *vh.Config) error {
 	// at the same index of different files (finding 28); (b) every file of every bundle above;
 	// (c) a bundle with a hand-written .proto source using several option spellings.
 	{
-		reps := cfg.Scale(64, 400)
+		reps := cfg.Scale(56, 400)
 		type printJob struct {
 			Name string
 			F    protoreflect.FileDescriptor
@@ -516,7 +566,7 @@ func runC14(cfg *vh.Config) error {
 	// ---- stream 2: the Dependency list of one-property files, against the ensureImport model
 	rI := cfg.R.Fork("imports")
 	props := isoMatrix(rI, false)
-	nI := cfg.Scale(500, 3000)
+	nI := cfg.Scale(320, 3000)
 	if nI > len(props) {
 		nI = len(props)
 	}
